@@ -39,6 +39,23 @@ fn any_id() -> Id {
     a
 }
 
+/// entries journalled in the chunk that is open for appending are pinned in the
+/// cache: the eviction boundary lies below every one of them (they cannot be
+/// read back from a closed chunk)
+fn assert_open_pinned(rl: &RaftLog<RTypes>) {
+    let boundary: Option<Id> = rl.state_machine.payload_cache.read().unwrap().last_evictable().copied();
+    let open_id = rl.wal.open.chunk.chunk_id();
+    let mut i = 0;
+    while i < 4 {
+        if let Some((_k, d)) = rl.state_machine.log.slot(i) {
+            if d.chunk_id == open_id {
+                assert!(Some(d.log_id) > boundary, "an entry of the open chunk is evictable");
+            }
+        }
+        i += 1;
+    }
+}
+
 fn untouched(slot: usize, len: usize) -> bool {
     let f = &gfs::fs().files[slot];
     f.exists && f.n_set_len == 0 && f.n_write == 0 && f.len == len as u64
@@ -68,6 +85,7 @@ replay_proof! {
         match open(replay_config(None)) {
             Some(rl) => {
                 assert_matches(&rl, &m);
+                assert_open_pinned(&rl);
                 assert_read(&rl, &m, 0, 255);
                 assert!(rl.wal.closed.len() == 0, "a healthy last chunk is reopened for appending");
                 assert!(rl.wal.open.chunk.global_end() == end as u64, "journal does not continue at the end of the reopened chunk");
@@ -110,6 +128,7 @@ replay_proof! {
         match open(replay_config(None)) {
             Some(rl) => {
                 assert_matches(&rl, &m);
+                assert_open_pinned(&rl);
                 assert_cached(&rl, &m);
                 assert!(untouched(0, end), "clean image modified by open");
                 kani::cover!(b1.0 < a1.0, "re-appended entry has a lower term than the truncated one");
@@ -143,6 +162,7 @@ replay_proof! {
         match open(replay_config(None)) {
             Some(rl) => {
                 assert_matches(&rl, &m);
+                assert_open_pinned(&rl);
                 assert_cached(&rl, &m);
                 assert!(untouched(0, end), "clean image modified by open");
                 kani::cover!(m.n == 1 && m.purged == Some(a0), "one live entry above the purge point");
@@ -178,10 +198,72 @@ replay_proof! {
         match open(replay_config(None)) {
             Some(rl) => {
                 assert_matches(&rl, &m);
+                assert_open_pinned(&rl);
                 assert_read(&rl, &m, 0, 255);
                 assert!(rl.wal.open.chunk.global_start() == base && rl.wal.open.chunk.global_end() == base + end as u64);
                 assert!(untouched(0, end));
                 kani::cover!(true, "reopened from a state snapshot");
+                core::mem::forget(rl);
+            }
+            None => assert!(false, "open of a cleanly written directory failed"),
+        }
+    }
+}
+
+// the newest (and only) chunk holds nothing but its head snapshot - the store
+// was closed right after a rotation whose older chunks have been purged away:
+// the snapshot IS the state
+// @harness name=c02_head_only prop=C02 tier=quick timeout=900 fs=512
+replay_proof! {
+    unwind = 10, crc = off,
+    fn c02_head_only() {
+        let mut m = empty_model();
+        let pg = any_id();
+        m.vote = Some(kani::any());
+        m.committed = Some(kani::any());
+        m.purged = Some(pg);
+        m.last = Some(pg);
+        m.user_data = None;
+        let mut im = Img::new(0, 500);
+        im.state(m.vote, m.last, m.committed, m.purged, None);
+        let end = im.commit_len();
+        match open(replay_config(None)) {
+            Some(rl) => {
+                assert_matches(&rl, &m);
+                assert!(rl.wal.open.chunk.global_start() == 500 && rl.wal.open.chunk.global_end() == 500 + end as u64, "the chunk holding the snapshot is not the one that continues the journal");
+                assert!(untouched(0, end), "clean image modified by open");
+                kani::cover!(true, "reopened from a head-only chunk");
+                core::mem::forget(rl);
+            }
+            None => assert!(false, "open of a cleanly written directory failed"),
+        }
+    }
+}
+
+// a state snapshot in the middle of a chunk (save_user_data journals the whole
+// state) after an append: the entry stays pinned, user data is replayed
+// @harness name=c02_mid_chunk_state prop=C02 tier=quick timeout=900 fs=512
+replay_proof! {
+    unwind = 10, crc = off,
+    fn c02_mid_chunk_state() {
+        let mut m = empty_model();
+        let mut im = Img::new(0, 0);
+        im.state(None, None, None, None, None);
+        let a0 = any_id();
+        let p0 = P::new(1, kani::any());
+        im.append(a0, p0);
+        m.do_append(a0, p0);
+        let u: u8 = kani::any();
+        im.state(None, Some(a0), None, None, Some(u));
+        m.user_data = Some(u);
+        let end = im.commit_len();
+        match open(replay_config(None)) {
+            Some(rl) => {
+                assert_matches(&rl, &m);
+                assert_open_pinned(&rl);
+                assert_cached(&rl, &m);
+                assert!(untouched(0, end), "clean image modified by open");
+                kani::cover!(true, "reopened with a mid-chunk state record");
                 core::mem::forget(rl);
             }
             None => assert!(false, "open of a cleanly written directory failed"),
@@ -226,6 +308,7 @@ replay_proof! {
         match open(replay_config(None)) {
             Some(rl) => {
                 assert_matches(&rl, &m);
+                assert_open_pinned(&rl);
                 assert_cached(&rl, &m);
                 assert!(rl.wal.closed.len() == 1 && rl.wal.open.chunk.global_start() == end0 as u64, "chunks not chained");
                 assert!(rl.wal.open.chunk.global_end() == (end0 + end1) as u64);
@@ -252,6 +335,7 @@ replay_proof! {
         match open(replay_config_cache(None, Some(1), None)) {
             Some(rl) => {
                 assert_matches(&rl, &m);
+                assert_open_pinned(&rl);
                 // the oldest entry: evicted, read back from the closed chunk's file
                 assert_read(&rl, &m, m.e[0].0 .1 as u64, m.e[0].0 .1 as u64 + 1);
                 let st = rl.stat();
@@ -290,6 +374,7 @@ replay_proof! {
                         m.do_append(id, p);
                         assert!(seg.offset().0 == end as u64, "first record after restart is not journalled at the end of the replayed bytes");
                         assert_matches(&rl, &m);
+                assert_open_pinned(&rl);
                         assert_read(&rl, &m, 0, 255);
                         kani::cover!(true, "append after restart");
                     }
@@ -297,6 +382,7 @@ replay_proof! {
                         core::mem::forget(e);
                         assert!(!m.append_ok(id), "append after restart refused although the reference log accepts it");
                         assert_matches(&rl, &m);
+                assert_open_pinned(&rl);
                         kani::cover!(true, "refused append after restart");
                     }
                 }
@@ -310,7 +396,7 @@ replay_proof! {
 // ---------------------------------------------------------------- C03 / C05 / C10: crash images
 
 /// [State(empty), Append a0 (1), Commit c] cut `k` bytes into the Commit record
-fn torn_tail(k: usize, then_write: bool) {
+fn torn_tail(k: usize, then_write: u8) {
     let mut m = empty_model();
     let mut im = Img::new(0, 0);
     im.state(None, None, None, None, None);
@@ -335,7 +421,20 @@ fn torn_tail(k: usize, then_write: bool) {
             assert!(rl.wal.open.chunk.global_start() == e1 as u64, "new chunk does not start at the recovered end");
             assert!(gfs::find_chunk(e1 as u64).is_some(), "no file created for the new chunk");
             kani::cover!(true, "recovered from a torn tail");
-            if then_write {
+            assert_open_pinned(&rl);
+            if then_write == 1 {
+                let v: Id = kani::any();
+                kani::assume(m.vote_ok(v));
+                let r = rl.save_vote(v);
+                match r {
+                    Ok(seg) => assert!(seg.offset().0 > e1 as u64 && rl.wal.open.chunk.global_end() == seg.offset().0 + *seg.size(), "vote after recovery not journalled at the end of the fresh chunk"),
+                    Err(e) => { core::mem::forget(e); assert!(false, "store unusable after recovery"); }
+                }
+                m.do_vote(v);
+                assert_matches(&rl, &m);
+                kani::cover!(true, "write after recovery");
+            }
+            if then_write == 2 {
                 let id = any_id();
                 kani::assume(m.append_ok(id));
                 let p = P::new(1, kani::any());
@@ -343,6 +442,7 @@ fn torn_tail(k: usize, then_write: bool) {
                 assert!(ok, "store unusable after recovery");
                 m.do_append(id, p);
                 assert_matches(&rl, &m);
+                assert_open_pinned(&rl);
                 assert_cached(&rl, &m);
                 kani::cover!(true, "write after recovery");
             }
@@ -353,11 +453,13 @@ fn torn_tail(k: usize, then_write: bool) {
 }
 
 // @harness name=c05_torn_tail_first_byte prop=C05 tier=quick timeout=1200 fs=512 allow_unsat=write
-replay_proof! { unwind = 10, crc = off, fn c05_torn_tail_first_byte() { torn_tail(1, false); } }
+replay_proof! { unwind = 10, crc = off, fn c05_torn_tail_first_byte() { torn_tail(1, 0); } }
 // @harness name=c05_torn_tail_mid prop=C05 tier=thorough timeout=1200 fs=512 allow_unsat=write
-replay_proof! { unwind = 10, crc = off, fn c05_torn_tail_mid() { torn_tail(6, false); } }
-// @harness name=c05_torn_tail_last_byte_write prop=C05 tier=quick timeout=1500 fs=512
-replay_proof! { unwind = 10, crc = off, fn c05_torn_tail_last_byte_write() { torn_tail(0, true); } }
+replay_proof! { unwind = 10, crc = off, fn c05_torn_tail_mid() { torn_tail(6, 0); } }
+// @harness name=c05_torn_tail_last_byte_vote prop=C05 tier=thorough timeout=2400 fs=512
+replay_proof! { unwind = 10, crc = off, fn c05_torn_tail_last_byte_vote() { torn_tail(0, 1); } }
+// @harness name=c05_torn_tail_last_byte_append prop=C05 tier=thorough timeout=3000 fs=512
+replay_proof! { unwind = 10, crc = off, fn c05_torn_tail_last_byte_append() { torn_tail(0, 2); } }
 
 // two chunks, the newest torn inside its second record (its head snapshot is complete)
 // @harness name=c05_torn_second_chunk prop=C05 tier=quick timeout=1500 fs=512
@@ -381,6 +483,7 @@ replay_proof! {
         match open(replay_config(None)) {
             Some(rl) => {
                 assert_matches(&rl, &m);
+                assert_open_pinned(&rl);
                 assert!(untouched(0, end0), "an older chunk was modified by recovery");
                 let f = &gfs::fs().files[1];
                 assert!(f.len == h as u64 && f.n_set_len == 1);
@@ -441,6 +544,7 @@ fn empty_newest(len1: usize) {
     match open(replay_config(None)) {
         Some(rl) => {
             assert_matches(&rl, &m);
+            assert_open_pinned(&rl);
             assert_cached(&rl, &m);
             assert!(untouched(0, end0), "an older chunk was modified by recovery");
             assert!(rl.wal.closed.len() == 0 && rl.wal.open.chunk.global_end() == end0 as u64, "the previous chunk is not the one that continues the journal");
@@ -470,6 +574,7 @@ replay_proof! {
         match open(replay_config(None)) {
             Some(rl) => {
                 assert_matches(&rl, &m);
+                assert_open_pinned(&rl);
                 assert!(rl.wal.closed.len() == 0 && rl.wal.open.chunk.global_start() == 0);
                 kani::cover!(true, "fresh store after a crash during the very first open");
                 core::mem::forget(rl);
@@ -509,35 +614,35 @@ replay_proof! {
 // ---------------------------------------------------------------- C09: missing pieces
 
 // a chunk file in the middle of the journal is missing: open fails and leaves
-// every file as it was
-// @harness name=c09_missing_middle_chunk prop=C09 tier=quick timeout=1500 fs=512
-replay_proof! {
-    unwind = 10, crc = off,
-    fn c09_missing_middle_chunk() {
-        let mut im = Img::new(0, 0);
-        im.state(None, None, None, None, None);
-        let a0 = any_id();
-        im.append(a0, P::new(1, kani::any()));
-        let end0 = im.commit_len();
-        // chunk [end0, end0 + gap) is gone
-        let gap: u64 = kani::any();
-        kani::assume(gap >= 1 && gap <= 1_000_000);
-        let mut im = Img::new(1, end0 as u64 + gap);
-        im.state(None, Some(a0), None, None, None);
-        im.commit(kani::any());
-        let end1 = im.commit_len();
-        match open(replay_config(None)) {
-            Some(rl) => {
-                core::mem::forget(rl);
-                assert!(false, "open succeeded although a chunk in the middle of the journal is missing");
-            }
-            None => {
-                assert!(untouched(0, end0) && untouched(1, end1), "refused open modified a chunk file");
-                kani::cover!(true, "gap reported");
-            }
+// every file as it was. (The gap size is part of the shape: a chunk id is a
+// file name, and a symbolic id makes the ghost directory lookup - and with it
+// every file access - symbolic.)
+fn missing_middle<const GAP: u64>() {
+    let mut im = Img::new(0, 0);
+    im.state(None, None, None, None, None);
+    let a0 = any_id();
+    im.append(a0, P::new(1, kani::any()));
+    let end0 = im.commit_len();
+    let mut im = Img::new(1, end0 as u64 + GAP);
+    im.state(None, Some(a0), None, None, None);
+    im.commit(kani::any());
+    let end1 = im.commit_len();
+    match open(replay_config(None)) {
+        Some(rl) => {
+            core::mem::forget(rl);
+            assert!(false, "open succeeded although a chunk in the middle of the journal is missing");
+        }
+        None => {
+            assert!(untouched(0, end0) && untouched(1, end1), "refused open modified a chunk file");
+            kani::cover!(true, "gap reported");
         }
     }
 }
+
+// @harness name=c09_missing_middle_chunk prop=C09 tier=quick timeout=1500 fs=512
+replay_proof! { unwind = 10, crc = off, fn c09_missing_middle_chunk() { missing_middle::<1>(); } }
+// @harness name=c09_missing_middle_chunk_far prop=C09 tier=thorough timeout=1500 fs=512
+replay_proof! { unwind = 10, crc = off, fn c09_missing_middle_chunk_far() { missing_middle::<70000>(); } }
 
 // KNOWN FINDING KF-C09-nonnewest-truncated: an incomplete tail in a chunk that
 // is not the newest is cut away (`set_len`) before the gap check of the next
@@ -571,5 +676,83 @@ replay_proof! {
             }
         }
         let _ = e1;
+    }
+}
+
+// ---------------------------------------------------------------- C03: the recovered state is a prefix
+
+/// [State(empty), Append a0 (1), Append a1 (0), <last>] with <last> torn `cut`
+/// bytes in: the recovered store is exactly the store after the three complete
+/// records - the torn purge / truncation / commit / vote has no effect at all.
+fn prefix_only(last: u8, cut: usize) {
+    let mut m = empty_model();
+    let mut im = Img::new(0, 0);
+    im.state(None, None, None, None, None);
+    let a0 = any_id();
+    let p0 = P::new(1, kani::any());
+    im.append(a0, p0);
+    m.do_append(a0, p0);
+    let a1 = any_id();
+    kani::assume(m.append_ok(a1));
+    let p1 = P::new(0, 0);
+    let e2 = im.append(a1, p1);
+    m.do_append(a1, p1);
+    let x: Id = kani::any();
+    let e3 = match last {
+        0 => im.vote(x),
+        2 => im.commit(x),
+        3 => im.truncate_after(Some(a0)),
+        _ => im.purge(a0),
+    };
+    im.commit_len();
+    assert!(e2 + cut < e3);
+    gfs::fs().files[0].len = (e2 + cut) as u64;
+    match open(replay_config(None)) {
+        Some(rl) => {
+            assert_matches(&rl, &m);
+            assert_cached(&rl, &m);
+            assert!(gfs::fs().files[0].len == e2 as u64, "file not cut back to the complete prefix");
+            kani::cover!(true, "prefix recovered");
+            core::mem::forget(rl);
+        }
+        None => assert!(false, "open failed on a crash image with a torn tail"),
+    }
+}
+
+// @harness name=c03_torn_purge prop=C03 tier=quick timeout=1500 fs=512
+replay_proof! { unwind = 10, crc = off, fn c03_torn_purge() { prefix_only(4, 13); } }
+// @harness name=c03_torn_truncate prop=C03 tier=quick timeout=1500 fs=512
+replay_proof! { unwind = 10, crc = off, fn c03_torn_truncate() { prefix_only(3, 7); } }
+// @harness name=c03_torn_commit prop=C03 tier=quick timeout=1500 fs=512
+replay_proof! { unwind = 10, crc = off, fn c03_torn_commit() { prefix_only(2, 6); } }
+// @harness name=c03_torn_vote prop=C03 tier=thorough timeout=1500 fs=512
+replay_proof! { unwind = 10, crc = off, fn c03_torn_vote() { prefix_only(0, 5); } }
+
+// nothing torn: every complete record is replayed, including a purge and a
+// truncation as the last record (no complete record is dropped by recovery)
+// @harness name=c03_complete_purge_last prop=C03 tier=quick timeout=1500 fs=512
+replay_proof! {
+    unwind = 10, crc = off,
+    fn c03_complete_purge_last() {
+        let mut m = empty_model();
+        let mut im = Img::new(0, 0);
+        im.state(None, None, None, None, None);
+        let a0 = any_id();
+        let p0 = P::new(1, kani::any());
+        im.append(a0, p0);
+        m.do_append(a0, p0);
+        im.purge(a0);
+        m.do_purge(a0);
+        let end = im.commit_len();
+        match open(replay_config(None)) {
+            Some(rl) => {
+                assert_matches(&rl, &m);
+                assert_open_pinned(&rl);
+                assert!(untouched(0, end));
+                kani::cover!(m.n == 0 && m.purged == Some(a0), "the final purge is replayed");
+                core::mem::forget(rl);
+            }
+            None => assert!(false, "open of a cleanly written directory failed"),
+        }
     }
 }
